@@ -72,8 +72,20 @@ impl<T: FileReader> RVParser<T> {
             }
             Err(err) => diags.push(DiagnosticItem::from(*err)),
         }
-        diags.sort();
+        self.sort_diagnostics(&mut diags);
         diags
+    }
+
+    /// Order diagnostics by the name of their file, then by position. File
+    /// identifiers are random, so ordering by them would change the order of
+    /// the files from run to run.
+    pub fn sort_diagnostics(&self, diags: &mut [DiagnosticItem]) {
+        diags.sort_by(|a, b| {
+            self.reader
+                .get_filename(a.file)
+                .cmp(&self.reader.get_filename(b.file))
+                .then_with(|| a.cmp(b))
+        });
     }
 
     pub fn new(reader: T) -> RVParser<T> {
